@@ -17,7 +17,7 @@ TIMEOUT = {'quick': 900, 'thorough': 10000}
 from vlib.runner import config_name
 
 OPS = ['get_int', 'get_sec', 'get_uv', 'get_si', 'set_int', 'set_sec', 'del_int', 'del_sec', 'del_slice', 'ins_int', 'ins_sec', 'pop_int', 'pop_sec', 'pop', 'append', 'extend',
-       'add', 'mul', 'iadd', 'copy', 'remove', 'count', 'contains', 'find', 'index', 'sort', 'cmp', 'slice_get', 'set_si', 'set_slice', 'prod2', 'prod2', 'ins_uv', 'del_uv', 'pop_uv', 'remove_conc']
+       'add', 'mul', 'iadd', 'copy', 'remove', 'count', 'contains', 'find', 'index', 'sort', 'cmp', 'slice_get', 'set_si', 'set_slice', 'prod2', 'prod2', 'ins_uv', 'del_uv', 'pop_uv', 'remove_conc', 'reverse', 'imul', 'clear', 'key_again', 'key_again']
 
 
 def shards(tier, seed):
@@ -125,6 +125,39 @@ def gen_history(rng, tp, length):
             hist.append([op, vs])
             if op != 'add':
                 p.extend(vs)
+        elif op == 'key_again':
+            if n == 0:
+                continue
+            i = rng.randrange(n)
+            mut = rng.choice(['reverse', 'sort', 'set_int', 'set_other_key', 'rotate', 'slice'] if tp != 'fld' else ['reverse', 'set_int', 'set_other_key', 'rotate', 'slice'])
+            v = val()
+            hist.append([op, i, mut, v, rng.randrange(n)])
+            if mut == 'reverse':
+                p.reverse()
+            elif mut == 'sort':
+                p.sort()
+            elif mut == 'set_int':
+                p[i] = v
+            elif mut == 'set_other_key':
+                p[hist[-1][4]] = v
+            elif mut == 'rotate':
+                p.append(p.pop(0))
+            else:
+                p[0:1] = [v]
+        elif op == 'reverse':
+            hist.append([op])
+            p.reverse()
+        elif op == 'clear':
+            if rng.random() < 0.7:
+                continue
+            hist.append([op])
+            p.clear()
+        elif op == 'imul':
+            k = rng.choice([0, 1, 2, 2])
+            if n * k > 8:
+                continue
+            hist.append([op, k])
+            p *= k
         elif op == 'mul':
             k = rng.choice([0, 1, 2])
             if n * k > 8:
@@ -159,6 +192,20 @@ def make_program(tp, hist, log):
 
         def mk(v):
             return T(v)
+        keys = {}
+
+        def key(i, step):
+            # secret index objects are ordinary secure numbers of the caller: the same object may be used again later (two out of three times here)
+            if step % 3 == 0:
+                return mk(i)
+            if i not in keys:
+                keys[i] = mk(i)
+            return keys[i]
+
+        def iterable(vs, step):
+            # extend() and += accept any iterable, as for Python lists
+            xs = [mk(v) for v in vs]
+            return [xs, tuple(xs), (x for x in xs), map(lambda x: x, xs), iter(xs)][step % 5]
 
         async def opened(x):
             if isinstance(x, (int, bool, float)):
@@ -177,7 +224,7 @@ def make_program(tp, hist, log):
                 if op == 'get_int':
                     exp_res, got_res = p[h[1]], await opened(s[h[1]])
                 elif op == 'get_sec':
-                    exp_res, got_res = p[h[1]], await opened(s[mk(h[1])])
+                    exp_res, got_res = p[h[1]], await opened(s[key(h[1], step)])
                 elif op == 'get_uv':
                     exp_res, got_res = p[h[1]], await opened(s[[mk(int(i == h[1])) for i in range(n)]])
                 elif op == 'get_si':
@@ -188,7 +235,7 @@ def make_program(tp, hist, log):
                     s[h[1]] = mk(h[2])
                 elif op == 'set_sec':
                     p[h[1]] = h[2]
-                    s[mk(h[1])] = mk(h[2])
+                    s[key(h[1], step)] = mk(h[2])
                 elif op == 'set_si':
                     p[h[1]] = h[2]
                     s[secindex([mk(int(i == h[1])) for i in range(n)])] = mk(h[2])
@@ -197,7 +244,7 @@ def make_program(tp, hist, log):
                     del s[h[1]]
                 elif op == 'del_sec':
                     del p[h[1]]
-                    del s[mk(h[1])]
+                    del s[key(h[1], step)]
                 elif op == 'del_slice':
                     del p[h[1]:h[2]]
                     del s[h[1]:h[2]]
@@ -211,11 +258,11 @@ def make_program(tp, hist, log):
                     s.insert(h[1], mk(h[2]))
                 elif op == 'ins_sec':
                     p.insert(h[1], h[2])
-                    s.insert(mk(h[1]), mk(h[2]))
+                    s.insert(key(h[1], step), mk(h[2]))
                 elif op == 'pop_int':
                     exp_res, got_res = p.pop(h[1]), await opened(s.pop(h[1]))
                 elif op == 'pop_sec':
-                    exp_res, got_res = p.pop(h[1]), await opened(s.pop(mk(h[1])))
+                    exp_res, got_res = p.pop(h[1]), await opened(s.pop(key(h[1], step)))
                 elif op in ('ins_uv', 'del_uv', 'pop_uv'):
                     # secret index given as a list of secure numbers (unit vector): the operation must leave the caller's index object as it was,
                     # so that it can be used again (here: read back through the same index object after an insert)
@@ -264,14 +311,42 @@ def make_program(tp, hist, log):
                     s.append(mk(h[1]))
                 elif op == 'extend':
                     p.extend(h[1])
-                    s.extend([mk(v) for v in h[1]])
+                    s.extend(iterable(h[1], step))
                 elif op == 'iadd':
                     p += h[1]
-                    s += [mk(v) for v in h[1]]
+                    s += iterable(h[1], step)
                 elif op == 'add':
                     exp_res = p + h[1]
                     t_ = s + [mk(v) for v in h[1]]
                     got_res = (await opened(list(t_)) if exp_res else []) if isinstance(t_, mpc.seclist) else 'not a seclist'
+                elif op == 'key_again':
+                    # one secret index object used before and after the list changed: the second access sees the list as it is then
+                    k = mk(h[1])
+                    r1 = await opened(s[k])
+                    e1 = p[h[1]]
+                    mut = h[2]
+                    if mut == 'reverse':
+                        p.reverse(); s.reverse()
+                    elif mut == 'sort':
+                        p.sort(); s.sort()
+                    elif mut == 'set_int':
+                        p[h[1]] = h[3]; s[h[1]] = mk(h[3])
+                    elif mut == 'set_other_key':
+                        p[h[4]] = h[3]; s[mk(h[4])] = mk(h[3])
+                    elif mut == 'rotate':
+                        p.append(p.pop(0)); s.append(s.pop(0))
+                    else:
+                        p[0:1] = [h[3]]; s[0:1] = [mk(h[3])]
+                    exp_res, got_res = [e1, p[h[1]]], [r1, await opened(s[k])]
+                elif op == 'reverse':
+                    p.reverse()
+                    s.reverse()
+                elif op == 'clear':
+                    p.clear()
+                    s.clear()
+                elif op == 'imul':
+                    p *= h[1]
+                    s *= h[1]
                 elif op == 'mul':
                     exp_res = p * h[1]
                     t_ = s * h[1]
@@ -336,7 +411,7 @@ def make_program(tp, hist, log):
     return program
 
 
-SECRET_OPS = ('ins_uv', 'del_uv', 'pop_uv', 'remove_conc', 'get_sec', 'get_uv', 'get_si', 'set_sec', 'set_si', 'del_sec', 'ins_sec', 'pop_sec', 'remove', 'count', 'contains', 'find', 'index', 'sort', 'cmp')
+SECRET_OPS = ('key_again', 'ins_uv', 'del_uv', 'pop_uv', 'remove_conc', 'get_sec', 'get_uv', 'get_si', 'set_sec', 'set_si', 'del_sec', 'ins_sec', 'pop_sec', 'remove', 'count', 'contains', 'find', 'index', 'sort', 'cmp')
 
 
 def run(shard, rec):
